@@ -169,7 +169,7 @@ func genBatch(r *kit.Rand, thorough bool) inBatch {
 		}
 		b.pts = append(b.pts, inBP{tags: tags, fields: genFields(r, thorough), time: genTime(r)})
 	}
-	// the header as GroupByNode builds it: SetTagsAndDimensions(tags, sorted dimension names)
+	// the header as GroupByNode builds it: SetTagsAndDimensions(tags, sorted duplicate-free dimension names)
 	if k := r.Intn(40); k < 10 {
 		b.hasSet = true
 		for _, x := range sortedKeys(b.tags) {
@@ -181,7 +181,8 @@ func genBatch(r *kit.Rand, thorough bool) inBatch {
 			b.setDims = append(b.setDims, "zz-absent")
 		}
 		if k == 1 {
-			// groupBy('a', 'a'): determineTagNames sorts but does not dedupe (known finding batch-dims-rederived)
+			// a dimension named twice, as GroupByNode built it for groupBy('a', 'a') until fix a050cea: a hand-made header
+			// now (no in-tree producer), kept to tie echo_identity_up_to_dims to the real boundary
 			if len(b.setDims) == 0 {
 				b.setDims = []string{"dup"}
 			}
